@@ -652,7 +652,7 @@ class RecordContextMatcher:
                 comp = AST_COMPARATORS[comptype]
 
                 # Special case for __contains__, where we need to first unwrap all values matching the Type query
-                if comptype in (ast.In, ast.NotIn) and isinstance(left, TypeMatcherInstance):
+                if comptype in (ast.In, ast.NotIn) and isinstance(left, TypeMatcherInstance) and not isinstance(right, NoneObject):
                     # `Type.x in seq`: one of the values is in seq; `not in` is its negation (like Python and the compiled selector)
                     # (through _op, so that the values of nested records take part like they do for every other operator)
                     result = left._op(AST_COMPARATORS[ast.In], right)
